@@ -54,8 +54,8 @@ pub enum Step {
 pub open spec fn phase_rank(p: DPhase) -> nat {
     match p { DPhase::Body(_, _) => 1, _ => 0 }
 }
-pub uninterp spec fn rfc_greeting_ok(g: Seq<u8>) -> bool;
-pub uninterp spec fn rfc_command_ok(body: Seq<u8>) -> bool;
+// rfc_greeting_ok(g) / rfc_command_ok(body): RFC validity of a greeting block / a command body,
+// defined by the unit that includes this file.
 
 pub open spec fn rfc_step(st: DAbs, buf: Seq<u8>) -> Step
     decreases buf.len(), phase_rank(st.phase)
